@@ -591,7 +591,10 @@ def simulate(spec, progs=True):
                             bypar = parts[2] if len(parts) > 2 else ""
                         tot = 0.0
                         for l in links:
-                            if l["pop"] == pop and (not src or l["src"] == src) and (not dst or l["dst"] == dst) and (not bypar or l["par"] == bypar) and l["key"] in flow:
+                            # a reference names compartments of the population it is evaluated in: 'src:...' = flows LEAVING src of this population
+                            # (transfers to other populations included), ':dst' = flows ARRIVING in dst of this population (transfers from others included)
+                            here = (l["pop"] == pop) if (src or not dst) else (l.get("dpop", l["pop"]) == pop)
+                            if here and (not src or l["src"] == src) and (not dst or l["dst"] == dst) and (not bypar or l["par"] == bypar) and l["key"] in flow:
                                 f = flow[l["key"]]
                                 tot += math.fsum(f) if isinstance(f, list) else f
                         env[nm] = tot / dt
